@@ -153,7 +153,7 @@ Elems(n) == UNION {[1..m -> Keys \X {1} \X DArgs] : m \in 0..n}
 KeySeqs(n) == UNION {[1..m -> Keys] : m \in 0..n}
 
 DoInsertRange(kv, a) ==
-  \E x \in FoldInsert(AllTags, cfg, now, {[st |-> RangeStart(cfg, st), acc |-> 0]}, kv, a, 1) :
+  \E x \in FoldInsert(AllTags, cfg, now, {[st |-> z, acc |-> 0] : z \in RangeStarts(cfg, st)}, kv, a, 1) :
      /\ st' = x.st
      /\ gh' = GhResync(gh, cfg, x.st, now,
                        {k \in Keys : \E i \in 1..Len(kv) : kv[i][1] = k /\ x.st.dl[k] = now + InsertTtl(cfg, st, kv[i][3])})
@@ -161,14 +161,14 @@ DoInsertRange(kv, a) ==
      /\ UNCHANGED <<cfg, now>>
 
 DoEraseRange(ks) ==
-  \E x \in FoldErase(AllTags, cfg, now, {[st |-> RangeStart(cfg, st), acc |-> 0]}, ks, 1) :
+  \E x \in FoldErase(AllTags, cfg, now, {[st |-> z, acc |-> 0] : z \in RangeStarts(cfg, st)}, ks, 1) :
      /\ st' = x.st
      /\ gh' = GhResync(gh, cfg, x.st, now, {})
      /\ lastOp' = [op |-> "erar", ks |-> ks]
      /\ UNCHANGED <<cfg, now>>
 
 DoFindRange(ks, peek, fill) ==
-  \E x \in FoldFind(AllTags, cfg, now, {[st |-> RangeStart(cfg, st), acc |-> <<>>]}, ks, peek, 1) :
+  \E x \in FoldFind(AllTags, cfg, now, {[st |-> z, acc |-> <<>>] : z \in RangeStarts(cfg, st)}, ks, peek, 1) :
      /\ st' = x.st
      /\ gh' = [GhResync(gh, cfg, x.st, now, {}) EXCEPT !.hits = {}]
      /\ lastOp' = [op |-> IF fill THEN "findf" ELSE "findr", ks |-> ks, p |-> IF peek THEN 1 ELSE 0]
